@@ -64,7 +64,13 @@ def cases(draw, hazard):
     for _ in range(2):
         ref = (qual['text'] + '.' if qual else '') + name['text']
         if alias:
-            ref += (w() + draw(st.sampled_from(['AS', 'as', 'As'])) if as_ else '') + w() + alias['text']
+            if as_:
+                # quotes delimit: a quoted name / alias may abut AS ("s"."t"AS"o", price AS"Total")
+                before = '' if name['q'] != 'plain' and draw(st.integers(0, 3)) == 0 else w()
+                after = '' if alias['q'] != 'plain' and draw(st.integers(0, 2)) == 0 else w()
+                ref += before + draw(st.sampled_from(['AS', 'as', 'As'])) + after + alias['text']
+            else:
+                ref += w() + alias['text']
         before, after = neighbours(), neighbours()
         items = before + [ref] + after
         parts = []
